@@ -105,6 +105,9 @@ class Lin:
                         cs.append(c)
                     self.cases[i] = cs
                 return {i: Fraction(1)}, Fraction(0)
+        if nm == "min_u64_usize" and len(e[2]) == 2:
+            # the crate's clamp of a u64 position into a usize length: mathematically min(a, b) (its body is checked by C7 check_helpers)
+            nm = "min"
         if nm in ("min", "max") and len(e[2]) == 2:
             i = self.atom(e)
             forms = []
